@@ -114,6 +114,7 @@ func newCreateTable(ct sql.CreateTableStmt) *Schema {
 				st.setPK([]IndexColumn{
 					{
 						Column:    c.Name,
+						Collate:   c.Collate,
 						SortOrder: c.PrimaryKeyDir,
 					},
 				})
@@ -127,6 +128,7 @@ func newCreateTable(ct sql.CreateTableStmt) *Schema {
 					[]IndexColumn{
 						{
 							Column:    c.Name,
+							Collate:   c.Collate,
 							SortOrder: c.PrimaryKeyDir,
 						},
 					},
@@ -142,6 +144,7 @@ func newCreateTable(ct sql.CreateTableStmt) *Schema {
 				[]IndexColumn{
 					{
 						Column:    c.Name,
+						Collate:   c.Collate,
 						SortOrder: sql.Asc,
 					},
 				},
